@@ -312,14 +312,14 @@ def _rewrite_block(prog, stmts, owner_cls, module, depth):
                 body, res = exp
                 out.extend(_rewrite_block(prog, body, owner_cls, module, depth - 1))
                 if not isinstance(res, str):
-                    out.append(ast.copy_location(ast.Assign(targets=st.targets, value=res), st))
+                    out.extend(_rewrite_block(prog, [ast.copy_location(ast.Assign(targets=st.targets, value=res), st)], owner_cls, module, depth - 1))
                 continue
         elif isinstance(st, ast.Return) and st.value is not None:
             exp = _expand(prog, st.value, owner_cls, module, depth)
             if exp and exp[1] is not None:
                 body, res = exp
                 out.extend(_rewrite_block(prog, body, owner_cls, module, depth - 1))
-                out.append(ast.copy_location(ast.Return(value=res), st))
+                out.extend(_rewrite_block(prog, [ast.copy_location(ast.Return(value=res), st)], owner_cls, module, depth - 1))
                 continue
         if isinstance(st, (ast.Assign, ast.Return, ast.Expr)) and isinstance(getattr(st, "value", None), ast.Call):
             st.value = _ExprInliner(prog, owner_cls, module, depth).visit(st.value)
